@@ -376,3 +376,289 @@ Proof.
       apply Z.ltb_ge in A. apply Z.ltb_ge in B.
       split; [reflexivity|]. split; [reflexivity|intros N; elim N; lia].
 Qed.
+
+(* ==================== zap.Any ==================== *)
+(* the type switch only asks, of the dynamic type, which of the listed interfaces it implements *)
+Fixpoint any_lookup_b (tbl : list (gty * name)) (ty : gty) (p : iface -> bool) : name :=
+  match tbl with
+  | [] => $"Reflect"
+  | (TIface i, c) :: r => if p i then c else any_lookup_b r ty p
+  | (t, c) :: r => if gty_eqb t ty then c else any_lookup_b r ty p
+  end.
+Definition spec_any_b (t : gty) (p : iface -> bool) : name :=
+  match natural t with
+  | Some c => c
+  | None => if p IObjM then $"Object" else if p IArrM then $"Array"
+            else if p IError then $"NamedError" else if p IStringer then $"Stringer" else $"Reflect"
+  end.
+
+Lemma any_lookup_has tbl ty impls : any_lookup tbl ty impls = any_lookup_b tbl ty (has impls).
+Proof.
+  induction tbl as [|[t c] r IH]; [reflexivity|]. cbn. destruct t; rewrite IH; reflexivity.
+Qed.
+Lemma spec_any_has ty impls : spec_any ty impls = spec_any_b ty (has impls).
+Proof. reflexivity. Qed.
+
+(* the interfaces a case claims for the dynamic type agree with the table (listed types only) *)
+Definition consistent (ty : gty) (p : iface -> bool) : Prop :=
+  listedb ty = true -> forall i, In i four -> p i = table_impl ty i.
+
+Lemma num_eqb_eq a b : num_eqb a b = true -> a = b.
+Proof. destruct a, b; cbn; intros H; try discriminate H; reflexivity. Qed.
+Lemma iface_eqb_eq a b : iface_eqb a b = true -> a = b.
+Proof. destruct a, b; cbn; intros H; try discriminate H; reflexivity. Qed.
+Lemma gty_eqb_eq : forall a b, gty_eqb a b = true -> a = b.
+Proof.
+  induction a; intros b; destruct b; cbn; intros H; try discriminate H; try reflexivity.
+  - apply num_eqb_eq in H. subst. reflexivity.
+  - apply iface_eqb_eq in H. subst. reflexivity.
+  - apply IHa in H. subst. reflexivity.
+  - apply IHa in H. subst. reflexivity.
+  - apply iface_eqb_eq in H. subst. reflexivity.
+  - apply Z.eqb_eq in H. subst. reflexivity.
+Qed.
+
+(* the lookup only depends on p through the interfaces the table lists, all among the four *)
+Lemma any_lookup_b_ext tbl ty p q :
+  forallb (fun e => match fst e with TIface i => existsb (iface_eqb i) four | _ => true end) tbl = true ->
+  (forall i, In i four -> p i = q i) -> any_lookup_b tbl ty p = any_lookup_b tbl ty q.
+Proof.
+  induction tbl as [|[t c] r IH]; intros F H; [reflexivity|]. cbn in F. apply andb_true_iff in F as [F1 F2].
+  cbn. destruct t; try (rewrite (IH F2 H); reflexivity).
+  assert (In i four) as I.
+  { destruct i; cbn in F1; try discriminate F1; cbn; tauto. }
+  rewrite (H i I), (IH F2 H). reflexivity.
+Qed.
+Lemma spec_any_b_ext ty p q : (forall i, In i four -> p i = q i) -> spec_any_b ty p = spec_any_b ty q.
+Proof.
+  intros H. unfold spec_any_b. destruct (natural ty); [reflexivity|].
+  rewrite (H IObjM), (H IArrM), (H IError), (H IStringer) by (cbn; tauto). reflexivity.
+Qed.
+
+(* a type no concrete clause lists falls through to the interface clauses, in their order *)
+Lemma any_lookup_b_unlisted tbl ty p :
+  existsb (fun e => negb (is_iface (fst e)) && gty_eqb (fst e) ty) tbl = false ->
+  any_lookup_b tbl ty p = any_lookup_b (filter (fun e => is_iface (fst e)) tbl) ty p.
+Proof.
+  induction tbl as [|[t c] r IH]; intros H; [reflexivity|]. cbn in H. apply orb_false_iff in H as [H1 H2].
+  cbn [filter fst]. destruct (is_iface t) eqn:It.
+  - destruct t; try discriminate It. cbn. rewrite (IH H2). reflexivity.
+  - cbn in H1. assert (G : gty_eqb t ty = false) by (destruct (gty_eqb t ty); [discriminate H1|reflexivity]).
+    destruct t; try discriminate It; cbn; cbn in G; rewrite ?G; apply IH, H2.
+Qed.
+
+(* table facts, by computation on the regenerated table *)
+Lemma any_ifaces_four :
+  forallb (fun e => match fst e with TIface i => existsb (iface_eqb i) four | _ => true end) (t_any T) = true.
+Proof. vm_compute. reflexivity. Qed.
+(* the interface clauses, in source order: marshalers, then error, then Stringer *)
+Lemma any_iface_order :
+  filter (fun e => is_iface (fst e)) (t_any T) =
+  [(TIface IObjM, $"Object"); (TIface IArrM, $"Array"); (TIface IError, $"NamedError"); (TIface IStringer, $"Stringer")].
+Proof. vm_compute. reflexivity. Qed.
+(* every listed concrete type reaches its own typed constructor: no earlier interface clause
+   shadows it (time.Time, time.Duration and their pointers are Stringers) and no earlier
+   concrete clause is the same type *)
+Lemma any_listed_ok :
+  forallb (fun e => is_iface (fst e) ||
+                    bytes_eqb (any_lookup_b (t_any T) (fst e) (table_impl (fst e)))
+                              (spec_any_b (fst e) (table_impl (fst e)))) (t_any T) = true.
+Proof. vm_compute. reflexivity. Qed.
+Lemma any_listed_natural :
+  forallb (fun e => is_iface (fst e) || match natural (fst e) with Some c => bytes_eqb c (snd e) | None => false end)
+          (t_any T) = true.
+Proof. vm_compute. reflexivity. Qed.
+
+(* Any lists every type that has a typed constructor *)
+Lemma natural_listed ty c : natural ty = Some c -> listedb ty = true.
+Proof.
+  destruct ty; cbn; try discriminate; try (intros _; vm_compute; reflexivity).
+  - destruct n; intros _; vm_compute; reflexivity.
+  - destruct ty; cbn; try discriminate; try (intros _; vm_compute; reflexivity).
+    destruct n; intros _; vm_compute; reflexivity.
+  - destruct ty; cbn; try discriminate; try (intros _; vm_compute; reflexivity).
+    + destruct n; try discriminate; intros _; vm_compute; reflexivity.
+    + destruct i; try discriminate; intros _; vm_compute; reflexivity.
+Qed.
+
+Theorem any_thm ty p : consistent ty p -> any_lookup_b (t_any T) ty p = spec_any_b ty p.
+Proof.
+  intros C. destruct (listedb ty) eqn:L.
+  - specialize (C L).
+    rewrite (any_lookup_b_ext _ ty p (table_impl ty) any_ifaces_four C), (spec_any_b_ext ty p (table_impl ty) C).
+    unfold listedb in L. apply existsb_exists in L as (e & Ie & He). apply andb_true_iff in He as [Hn He].
+    apply gty_eqb_eq in He. subst ty.
+    pose proof any_listed_ok as F. rewrite forallb_forall in F. specialize (F e Ie).
+    destruct (is_iface (fst e)); [discriminate Hn|]. cbn in F. apply bytes_eqb_eq in F. exact F.
+  - rewrite (any_lookup_b_unlisted _ ty p L), any_iface_order.
+    unfold spec_any_b. destruct (natural ty) eqn:N.
+    + rewrite (natural_listed ty n N) in L. discriminate L.
+    + cbn. destruct (p IObjM), (p IArrM), (p IError), (p IStringer); reflexivity.
+Qed.
+
+(* in terms of the case data: the dynamic type and the list of interfaces it implements *)
+Theorem any_thm_list ty impls : consistent ty (has impls) ->
+  any_lookup (t_any T) ty impls = spec_any ty impls.
+Proof. intros C. rewrite any_lookup_has, spec_any_has. apply any_thm, C. Qed.
+
+(* the order of the switch respects interface shadowing: no concrete clause comes after a clause
+   for an interface its type implements *)
+Fixpoint no_shadow (tbl : list (gty * name)) (seen : list iface) : bool :=
+  match tbl with
+  | [] => true
+  | (TIface i, _) :: r => no_shadow r (i :: seen)
+  | (t, _) :: r => negb (existsb (fun i => table_impl t i) seen) && no_shadow r seen
+  end.
+Lemma any_no_shadow : no_shadow (t_any T) [] = true.
+Proof. vm_compute. reflexivity. Qed.
+
+(* ==================== wire ==================== *)
+Lemma sx_eqb_refl s : sx_eqb s s = true.
+Proof.
+  revert s. fix IH 1. intros [z|b|l]; cbn.
+  - apply Z.eqb_refl.
+  - apply bytes_eqb_refl.
+  - induction l as [|a r IHr]; [reflexivity|]. rewrite IH, IHr. reflexivity.
+Qed.
+
+Lemma sx_eqb_eq : forall a b, sx_eqb a b = true -> a = b.
+Proof.
+  fix IH 1. intros [z|x|l] [z'|x'|l']; cbn; try discriminate.
+  - intros H. apply Z.eqb_eq in H. subst. reflexivity.
+  - intros H. apply bytes_eqb_eq in H. subst. reflexivity.
+  - intros H. f_equal. revert l' H. induction l as [|a l IHl]; intros [|b l'] H; try discriminate H; [reflexivity|].
+    apply andb_true_iff in H as [H1 H2]. f_equal; [apply IH, H1 | apply IHl, H2].
+Qed.
+
+Lemma of_bool_dec b : negb (sx_z (of_bool b) =? 0) = b.
+Proof. destruct b; reflexivity. Qed.
+
+(* decoding is a left inverse of encoding *)
+Lemma codec : forall v, val_of_sx (sx_of_val v) = v.
+Proof.
+  induction v using val_ind'; cbn; try reflexivity.
+  - destruct b; reflexivity.
+  - destruct n; reflexivity.
+  - destruct t; reflexivity.
+  - destruct o as [a b c d e f g]. cbn. destruct d, e; reflexivity.
+  - rewrite IHv. reflexivity.
+  - f_equal. rewrite map_map. induction H as [|x l Hx Hl IH]; [reflexivity|]. cbn. rewrite Hx, IH. reflexivity.
+  - rewrite IHv. reflexivity.
+  - rewrite IHv. reflexivity.
+  - f_equal. rewrite map_map. induction H as [|[[m k] x] l Hx Hl IH]; [reflexivity|]. cbn in *. rewrite Hx, IH. reflexivity.
+Qed.
+
+Lemma calls_ok_refl cs : calls_ok (sx_of_calls cs) (Some (norm_calls cs)) = true.
+Proof. unfold calls_ok, sx_of_calls. rewrite codec. apply sx_eqb_refl. Qed.
+
+Lemma find_ctor_some n l c : find_ctor n l = Some c -> In c l /\ c_name c = n.
+Proof.
+  induction l as [|x l IH]; cbn; [discriminate|].
+  destruct (bytes_eqb n (c_name x)) eqn:E.
+  - intros [= ->]. apply bytes_eqb_eq in E. split; [left; reflexivity|symmetry; exact E].
+  - intros H. destruct (IH H) as [I N]. split; [right; exact I|exact N].
+Qed.
+
+Lemma expected_dict stack nm t k v : nm = $"Dict" \/ nm = $"dictField" -> expected stack nm t k v = exp_dict k v.
+Proof. intros [-> | ->]; reflexivity. Qed.
+
+(* a well-formed application: the Field is built, AddTo does not panic and delivers as specified *)
+Lemma app_ok stack c k v : wf_app stack c k v = true ->
+  exists f cs, construct T ctor_fuel stack c k v = Some f /\
+               addto T (addto_fuel v) f = Some cs /\
+               expected stack c (param_of c) k v = Some (norm_calls cs) /\
+               fwfb f = true /\ (payload_self (param_of c) v = true -> fself f = true).
+Proof.
+  unfold wf_app, known, param_of. intros H. apply andb_true_iff in H as [H He]. apply andb_true_iff in H as [Hk Hv].
+  destruct (find_ctor c (t_ctors T)) as [ct|] eqn:F; [|discriminate Hk].
+  destruct (find_ctor_some _ _ _ F) as [I N]. subst c.
+  destruct (is_dict ct) eqn:D.
+  - destruct (dict_names ct I D) as (Hn & Hp). rewrite Hp in *.
+    destruct v; try discriminate Hv. rewrite (dict_construct _ Hn).
+    rewrite (expected_dict _ _ _ _ _ Hn) in *. pose proof (dict_addto k addr l) as A.
+    destruct (addto T (addto_fuel (VSlice addr l)) (dict_field k (VSlice addr l))) as [cs|] eqn:Ea; cbn [option_map] in A.
+    + exists (dict_field k (VSlice addr l)), cs.
+      split; [reflexivity|]. split; [exact Ea|]. split; [symmetry; exact A|]. split; [reflexivity|].
+      cbn in Hv. apply andb_true_iff in Hv as [H1 _]. intros Hs. cbn in Hs. cbn. apply (slice_self _ _ _ H1 Hs).
+    + rewrite <- A in He. discriminate He.
+  - pose proof (ctor_ok_in ct I D stack k v Hv) as H. unfold ctor_ok in H.
+    destruct (construct T ctor_fuel stack (c_name ct) k v) as [f|]; [|contradiction].
+    destruct (addto T (addto_fuel v) f) as [cs|] eqn:Ea; [|contradiction].
+    destruct H as (H1 & H2 & H3).
+    exists f, cs. split; [reflexivity|]. split; [exact Ea|]. split; [exact H1|]. split; [exact H2|exact H3].
+Qed.
+
+Lemma consistentb_sound ty impls : consistentb ty impls = true -> consistent ty (has impls).
+Proof.
+  unfold consistentb, consistent. intros H L i Ii. rewrite L in H. cbn [negb orb] in H.
+  apply Bool.eqb_prop. exact (forallb_In _ _ _ H Ii).
+Qed.
+
+Lemma ores_nz r : sx_z (sx_of_ores (Some r)) = if r then 1 else 0.
+Proof. destruct r; reflexivity. Qed.
+
+Theorem wire_thm : forall i, wf i = true -> spec i (model i) = true.
+Proof.
+  intros i W. unfold wf in W. unfold spec, model.
+  destruct (sx_z (sx_nth i 0)) as [|[p|p|]|p].
+  - (* a constructor *)
+    apply andb_true_iff in W as [_ W]. destruct (app_ok _ _ _ _ W) as (f & cs & Ec & Ea & Ee & _ & _).
+    cbn zeta. unfold deliver. rewrite Ec, Ea. unfold sx_nth at 1. cbn [sx_l nth]. rewrite Ee. apply calls_ok_refl.
+  - (* Equals (any other tag) *)
+    apply andb_true_iff in W as [W1 W2]. unfold wf_triple in W1, W2.
+    destruct (dec_triple (sx_nth i 1)) as [[c1 k1] v1] eqn:D1. destruct (dec_triple (sx_nth i 2)) as [[c2 k2] v2] eqn:D2.
+    apply andb_true_iff in W1 as [W1 S1]. apply andb_true_iff in W1 as [_ W1].
+    apply andb_true_iff in W2 as [W2 S2]. apply andb_true_iff in W2 as [_ W2].
+    destruct (app_ok _ _ _ _ W1) as (f & cs1 & Ec1 & _ & _ & F1 & Q1).
+    destruct (app_ok _ _ _ _ W2) as (g & cs2 & Ec2 & _ & _ & F2 & Q2).
+    rewrite Ec1, Ec2. destruct (equals_total_sym f g F1 F2) as (r & E12 & E21).
+    rewrite E12, E21, (equals_refl f F1 (Q1 S1)), (equals_refl g F2 (Q2 S2)).
+    unfold sx_nth at 1 2 3 4. cbn [sx_l nth]. rewrite !ores_nz. cbn [sx_z sx_of_ores].
+    destruct (sx_eqb (sx_nth i 1) (sx_nth i 2)) eqn:Es.
+    + apply sx_eqb_eq in Es. rewrite Es, D2 in D1. injection D1 as <- <- <-. rewrite Ec1 in Ec2. injection Ec2 as <-.
+      rewrite (equals_refl f F1 (Q1 S1)) in E12. injection E12 as <-. reflexivity.
+    + destruct r; reflexivity.
+  - (* Equals *)
+    apply andb_true_iff in W as [W1 W2]. unfold wf_triple in W1, W2.
+    destruct (dec_triple (sx_nth i 1)) as [[c1 k1] v1] eqn:D1. destruct (dec_triple (sx_nth i 2)) as [[c2 k2] v2] eqn:D2.
+    apply andb_true_iff in W1 as [W1 S1]. apply andb_true_iff in W1 as [_ W1].
+    apply andb_true_iff in W2 as [W2 S2]. apply andb_true_iff in W2 as [_ W2].
+    destruct (app_ok _ _ _ _ W1) as (f & cs1 & Ec1 & _ & _ & F1 & Q1).
+    destruct (app_ok _ _ _ _ W2) as (g & cs2 & Ec2 & _ & _ & F2 & Q2).
+    rewrite Ec1, Ec2. destruct (equals_total_sym f g F1 F2) as (r & E12 & E21).
+    rewrite E12, E21, (equals_refl f F1 (Q1 S1)), (equals_refl g F2 (Q2 S2)).
+    unfold sx_nth at 1 2 3 4. cbn [sx_l nth]. rewrite !ores_nz. cbn [sx_z sx_of_ores].
+    destruct (sx_eqb (sx_nth i 1) (sx_nth i 2)) eqn:Es.
+    + apply sx_eqb_eq in Es. rewrite Es, D2 in D1. injection D1 as <- <- <-. rewrite Ec1 in Ec2. injection Ec2 as <-.
+      rewrite (equals_refl f F1 (Q1 S1)) in E12. injection E12 as <-. reflexivity.
+    + destruct r; reflexivity.
+  - (* zap.Any *)
+    cbn zeta in *.
+    set (ty := gty_of_sx (sx_nth i 1)) in *. set (impls := map (fun s => iface_of_Z (sx_z s)) (sx_l (sx_nth i 2))) in *.
+    set (k := sx_b (sx_nth i 3)) in *. set (v := val_of_sx (sx_nth i 4)) in *. set (tc := ss (sx_b (sx_nth i 5))) in *.
+    apply andb_true_iff in W as [W Wt]. apply andb_true_iff in W as [W Ww]. apply andb_true_iff in W as [_ Wc].
+    rewrite (any_thm_list ty impls (consistentb_sound _ _ Wc)).
+    destruct (app_ok _ _ _ _ Ww) as (f & cs & Ec & Ea & Ee & F1 & Q1).
+    destruct (app_ok _ _ _ _ Wt) as (g & cs' & Ec' & _ & _ & F2 & Q2).
+    unfold deliver. rewrite Ec, Ea, Ec'. unfold sx_nth at 1 2 3 4. cbn [sx_l nth].
+    rewrite Wc, Ee, calls_ok_refl. cbn [andb].
+    destruct (bytes_eqb (spec_any ty impls) tc) eqn:Et; [|reflexivity].
+    apply bytes_eqb_eq in Et. rewrite Et in Ec. rewrite Ec in Ec'. injection Ec' as <-.
+    rewrite sx_eqb_refl. cbn [andb].
+    destruct (payload_self (param_of tc) v) eqn:Ps; [|reflexivity].
+    rewrite (equals_refl f F2 (Q2 eq_refl)). reflexivity.
+  - (* Equals (negative tag) *)
+    apply andb_true_iff in W as [W1 W2]. unfold wf_triple in W1, W2.
+    destruct (dec_triple (sx_nth i 1)) as [[c1 k1] v1] eqn:D1. destruct (dec_triple (sx_nth i 2)) as [[c2 k2] v2] eqn:D2.
+    apply andb_true_iff in W1 as [W1 S1]. apply andb_true_iff in W1 as [_ W1].
+    apply andb_true_iff in W2 as [W2 S2]. apply andb_true_iff in W2 as [_ W2].
+    destruct (app_ok _ _ _ _ W1) as (f & cs1 & Ec1 & _ & _ & F1 & Q1).
+    destruct (app_ok _ _ _ _ W2) as (g & cs2 & Ec2 & _ & _ & F2 & Q2).
+    rewrite Ec1, Ec2. destruct (equals_total_sym f g F1 F2) as (r & E12 & E21).
+    rewrite E12, E21, (equals_refl f F1 (Q1 S1)), (equals_refl g F2 (Q2 S2)).
+    unfold sx_nth at 1 2 3 4. cbn [sx_l nth]. rewrite !ores_nz. cbn [sx_z sx_of_ores].
+    destruct (sx_eqb (sx_nth i 1) (sx_nth i 2)) eqn:Es.
+    + apply sx_eqb_eq in Es. rewrite Es, D2 in D1. injection D1 as <- <- <-. rewrite Ec1 in Ec2. injection Ec2 as <-.
+      rewrite (equals_refl f F1 (Q1 S1)) in E12. injection E12 as <-. reflexivity.
+    + destruct r; reflexivity.
+Qed.
